@@ -38,7 +38,8 @@ class ThreadScheduler:
     # ------------------------------------------------------------ actors
     def spawn(self, name, fn):
         self.actors.append({'name': name, 'fn': fn, 'state': 'new',
-                            'blocked_on': None, 'exc': None})
+                            'blocked_on': None, 'exc': None,
+                            'can_timeout': False, 'timed_out': False})
         return len(self.actors) - 1
 
     def me(self):
@@ -56,7 +57,29 @@ class ThreadScheduler:
         """Choose who runs next (holding the lock)."""
         enabled = self._enabled()
         if not enabled:
-            return None
+            # quiescence: a wait with a timeout may now expire (never while
+            # somebody else could still run)
+            waiting = [i for i, a in enumerate(self.actors)
+                       if a['state'] in ('ready', 'running') and
+                       a['blocked_on'] is not None and a['can_timeout']]
+            if not waiting:
+                return None
+            if len(waiting) > 1:
+                k = len(self.trace)
+                if k < len(self.choices):
+                    c = self.choices[k] if self.choices[k] < len(waiting) \
+                        else 0
+                elif self.rng is not None:
+                    c = self.rng.randrange(len(waiting))
+                else:
+                    c = 0
+                self.trace.append((len(waiting), c))
+            else:
+                c = 0
+            i = waiting[c]
+            self.actors[i]['timed_out'] = True
+            self.actors[i]['blocked_on'] = None
+            return i
         # option 0 = keep running the current actor when possible
         if me in enabled:
             options = [me] + [i for i in enabled if i != me]
@@ -120,21 +143,31 @@ class ThreadScheduler:
                     raise Deadlock(self.aborted)
                 self.cond.wait(5)
 
-    def block_until(self, predicate, label='block'):
+    def block_until(self, predicate, label='block', can_timeout=False):
         """Scheduler-aware blocking: the actor is not schedulable until
-        predicate() is true."""
+        predicate() is true.  With can_timeout the wait expires (returns
+        False) - but only at quiescence, when no other actor can run."""
         me = self.me()
         if me is None:
-            return
+            return predicate()
         with self.cond:
-            self.actors[me]['blocked_on'] = predicate
+            a = self.actors[me]
+            a['blocked_on'] = predicate
+            a['can_timeout'] = can_timeout
+            a['timed_out'] = False
             self.labels.append((me, label))
             self._switch(me)
             while self.current != me:
                 if self.aborted:
                     raise Deadlock(self.aborted)
                 self.cond.wait(5)
-            self.actors[me]['blocked_on'] = None
+            a['blocked_on'] = None
+            a['can_timeout'] = False
+            if a['timed_out']:
+                a['timed_out'] = False
+                self.labels.append((me, 'timeout'))
+                return False
+            return True
 
     def _runner(self, i):
         a = self.actors[i]
@@ -201,6 +234,65 @@ def next_schedule(trace):
 
 
 # -------------------------------------------------------------- asyncio
+class SchedEvent:
+    """threading.Event look-alike: every operation is a yield point and
+    waiting is visible to the scheduler."""
+
+    def __init__(self, sched, name='ev'):
+        self.sched = sched
+        self.name = name
+        self._flag = False
+
+    def is_set(self):
+        self.sched.yield_point(self.name + '.is_set')
+        return self._flag
+
+    def set(self):
+        self.sched.yield_point(self.name + '.set')
+        self._flag = True
+
+    def clear(self):
+        self.sched.yield_point(self.name + '.clear')
+        self._flag = False
+
+    def wait(self, timeout=None):
+        self.sched.yield_point(self.name + '.wait')
+        if self._flag:
+            return True
+        if self.sched.me() is None:
+            return self._flag
+        return self.sched.block_until(lambda: self._flag,
+                                      self.name + '.blocked',
+                                      can_timeout=timeout is not None)
+
+
+class SchedList(list):
+    """list whose operations are yield points; appends are logged."""
+
+    def __init__(self, sched, items=(), log=None):
+        super().__init__(items)
+        self.sched = sched
+        self.log = log if log is not None else []
+
+    def append(self, x):
+        self.sched.yield_point('buf.append')
+        super().append(x)
+        self.log.append(('append', x))
+
+    def pop(self, i=-1):
+        self.sched.yield_point('buf.pop')
+        x = super().pop(i)
+        self.log.append(('pop', x))
+        return x
+
+    def __bool__(self):
+        self.sched.yield_point('buf.bool')
+        return super().__len__() > 0
+
+    def __len__(self):
+        return super().__len__()
+
+
 class AsyncGate:
     """Every legitimate suspension point of the actors awaits gate.pause();
     the controller releases one parked actor at a time, chosen by the
